@@ -41,6 +41,16 @@ type c10Tx struct {
 	links   []string // those of them that are symbolic links to store/<name>
 	stale   []string // those of them next to which a stale temp file lies
 	ro      []string // those of them whose file mode is 0444
+	hard    []string // those of them that have a second name (hard link) in aliases/
+}
+
+// c10HardLink gives the named tables a second directory entry (aliases/<name>): a table somebody keeps under two names. What the
+// other name shows after a COMMIT is csvq's business; the table at its own path must be complete, old or new, at every instant.
+func c10HardLink(dir string, names []string) {
+	for _, n := range names {
+		_ = os.MkdirAll(filepath.Join(dir, "aliases"), 0755)
+		_ = os.Link(filepath.Join(dir, n), filepath.Join(dir, "aliases", n))
+	}
 }
 
 // c10Link turns the named tables of a freshly copied directory into symbolic links to store/<name>.
@@ -144,6 +154,19 @@ func c10Case(w *core.Worker, i int) {
 			}
 		}
 	}
+	if i%2 == 0 && i > 0 {
+		for k := len(tx.tables) - 1; k >= 0; k-- {
+			n := tx.tables[k]
+			isLink := false
+			for _, l := range tx.links {
+				isLink = isLink || l == n
+			}
+			if !isLink {
+				tx.hard = []string{n}
+				break
+			}
+		}
+	}
 	base := core.FreshDir(w.Work, "base")
 	core.WriteFiles(base, tx.files)
 	txDigest := core.Digest(tx.program, fmt.Sprint(len(tx.files)))
@@ -157,6 +180,7 @@ func c10Case(w *core.Worker, i int) {
 	c10Link(clean, tx.links)
 	c10Stale(clean, tx.stale)
 	c10ReadOnly(clean, tx.ro)
+	c10HardLink(clean, tx.hard)
 	res := run(clean, nil, nil)
 	if res.Code != 0 && len(tx.stale) > 0 && !strings.Contains(res.Stderr, "Fatal Error") {
 		// refusing to touch a table next to a stale temp file is a legitimate answer — then nothing may have changed;
@@ -203,6 +227,7 @@ func c10Case(w *core.Worker, i int) {
 	c10Link(tr, tx.links)
 	c10Stale(tr, tx.stale)
 	c10ReadOnly(tr, tx.ro)
+	c10HardLink(tr, tx.hard)
 	tracePath := filepath.Join(w.Work, "trace.log")
 	_ = os.Remove(tracePath)
 	res = run(tr, []string{"VERIF_TRACE=" + tracePath}, nil)
@@ -255,6 +280,7 @@ func c10Case(w *core.Worker, i int) {
 		c10Link(d, tx.links)
 		c10Stale(d, tx.stale)
 		c10ReadOnly(d, tx.ro)
+		c10HardLink(d, tx.hard)
 		p := run(d, []string{"VERIF_CRASH_AT=" + at}, nil)
 		if p.Signal != 9 {
 			w.Inconclusive(fmt.Sprintf("crash at %s did not kill the process (%s)", at, p))
@@ -272,6 +298,9 @@ func c10Case(w *core.Worker, i int) {
 	}
 	if len(tx.ro) > 0 {
 		w.Count("transactions_with_a_write-protected_table", 1)
+	}
+	if len(tx.hard) > 0 {
+		w.Count("transactions_with_a_table_that_has_a_second_hard_link", 1)
 	}
 
 	// syscall walk with strace (thorough, first 20 transactions)
@@ -315,6 +344,7 @@ func c10Syscalls(w *core.Worker, tx c10Tx, base string, run func(string, []strin
 	c10Link(cnt, tx.links)
 	c10Stale(cnt, tx.stale)
 	c10ReadOnly(cnt, tx.ro)
+	c10HardLink(cnt, tx.hard)
 	out := filepath.Join(w.Work, "strace.cnt")
 	p := run(cnt, []string{"GOMAXPROCS=1"}, []string{"strace", "-f", "-c", "-o", out, "-e", "trace=" + strings.Join(calls, ",")})
 	if p.Code != 0 {
@@ -349,6 +379,7 @@ func c10Syscalls(w *core.Worker, tx c10Tx, base string, run func(string, []strin
 			c10Link(d, tx.links)
 			c10Stale(d, tx.stale)
 			c10ReadOnly(d, tx.ro)
+			c10HardLink(d, tx.hard)
 			at := fmt.Sprintf("syscall:%s#%d", sc, n)
 			p := run(d, []string{"GOMAXPROCS=1"}, []string{"strace", "-f", "-o", "/dev/null", "-e", "trace=" + sc, "-e", fmt.Sprintf("inject=%s:signal=SIGKILL:when=%d", sc, n)})
 			if p.Signal != 9 && p.Code != 137 && p.Code != -1 {
@@ -374,6 +405,7 @@ func c10Syscalls(w *core.Worker, tx c10Tx, base string, run func(string, []strin
 		c10Link(d, tx.links)
 		c10Stale(d, tx.stale)
 		c10ReadOnly(d, tx.ro)
+		c10HardLink(d, tx.hard)
 		pre := []string{"strace", "-f", "-o", "/dev/null", "-e", "trace=rename,renameat,renameat2,write", "-e", "inject=rename,renameat,renameat2:error=EPERM"}
 		at := "rename-refused"
 		if n > 0 {
@@ -400,6 +432,7 @@ func c10Syscalls(w *core.Worker, tx c10Tx, base string, run func(string, []strin
 		c10Link(d, tx.links)
 		c10Stale(d, tx.stale)
 		c10ReadOnly(d, tx.ro)
+		c10HardLink(d, tx.hard)
 		p := run(d, []string{"GOMAXPROCS=1"}, []string{"strace", "-f", "-o", "/dev/null", "-e", "trace=write", "-e", fmt.Sprintf("inject=write:error=ENOSPC:when=%d", n)})
 		if p.Code == 0 && !strings.Contains(p.Stderr, "no space left") {
 			// the failing write was not one of the commit's (or did not happen in this thread): judged all the same
